@@ -48,6 +48,12 @@ package logic
 //   and every control transfer goes to the fall-through pc, a reference target of that
 //   instruction, or a return address pushed by callsub.
 //
+// PART 3 (targets inside every instruction shape). For every version, EVERY instruction of the
+// tables longer than one byte (all immediate shapes, with and without a layout checker, the 0xd4
+// two-byte opcodes) as target T and every brancher (bnz, bz, b, callsub, switch, match): a forward
+// branch placed before T and a backward branch placed after T, aimed at every byte from before T
+// to beyond the end. Check must accept iff the byte is an instruction boundary.
+//
 // Not covered: interaction of gating with inner-transaction program execution (the callee's
 // version rules, MinInnerApplVersion) and consensus-parameter gating (Proto.LogicSigVersion < v);
 // field *values*; more than one gated instruction per program.
@@ -1230,6 +1236,251 @@ func c34Misaligned(v uint64, shape []int, targets []int, lay c34Layout, pcs []in
 	return ""
 }
 
+// ---------------------------------------------------------------------------------------------
+// part 3: branches into the interior of EVERY multi-byte instruction
+// ---------------------------------------------------------------------------------------------
+
+// c34InstrBytes encodes instruction s with every immediate 0 (field immediate = second), exactly
+// as part 1 does, without prelude.
+func c34InstrBytes(s *OpSpec, second int) []byte {
+	p := []byte{s.Opcode}
+	if s.SubOpcode != 0 {
+		p = append(p, s.SubOpcode)
+	}
+	fi := c34FieldImm(s)
+	for i, im := range s.Immediates {
+		switch im.kind {
+		case immByte, immInt8:
+			if i == fi && second >= 0 {
+				p = append(p, byte(second))
+			} else {
+				p = append(p, 0)
+			}
+		case immLabel:
+			p = append(p, 0, 0)
+		default:
+			p = append(p, 0)
+		}
+	}
+	return p
+}
+
+type c34Brancher struct {
+	name   string
+	opcode byte
+	intro  uint64
+	table  bool // switch/match: 1-entry table
+}
+
+var c34Branchers = []c34Brancher{
+	{"bnz", 0x40, 1, false}, {"bz", 0x41, 2, false}, {"b", 0x42, 2, false}, {"callsub", 0x88, 4, false},
+	{"switch", 0x8d, 8, true}, {"match", 0x8e, 8, true},
+}
+
+// c34EncodeBranch returns the bytes of brancher b at pc ipc aiming at tgt, or nil if the target
+// cannot be encoded (varint branch into itself).
+func c34EncodeBranch(v uint64, b c34Brancher, ipc, tgt int) []byte {
+	if b.table {
+		n := int16(tgt - (ipc + 4))
+		return []byte{b.opcode, 1, byte(uint16(n) >> 8), byte(n)}
+	}
+	if v >= varintBranchVersion {
+		var n int64
+		switch {
+		case tgt >= ipc+2:
+			n = int64(tgt - (ipc + 2))
+		case tgt < ipc:
+			n = int64(tgt - ipc)
+		default:
+			return nil
+		}
+		if n < -64 || n > 63 {
+			return nil
+		}
+		return []byte{b.opcode, byte(uint64(n<<1) ^ uint64(n>>63))}
+	}
+	n := int16(tgt - (ipc + 3))
+	return []byte{b.opcode, byte(uint16(n) >> 8), byte(n)}
+}
+
+// c34Part3: for every version, every instruction T of the tables that is longer than one byte
+// (every immediate shape: 1..3 byte immediates with and without a layout checker, int8, labels,
+// varuint/bytes/list immediates, the 0xd4 two-byte opcodes), and every brancher B:
+//
+//	forward :  intcblock 1 1; intc_0; B -> t; T; intc_0        t = every byte from T-1 .. end+1
+//	backward:  intcblock 1 1; T; intc_0; B -> t; intc_0        t = every byte from 0 .. B
+//
+// Check (signature mode, or application mode for application-only T) must accept iff t is an
+// instruction boundary of that linear program (or its end from v2; backward only from v4).
+func c34Part3(t *testing.T, r *ve.Run, refs *c34Refs) {
+	type tgtInstr struct {
+		name  string
+		bytes []byte
+		app   bool
+	}
+	versions := int(LogicVersion) + 1
+	var keys []uint16
+	for k := range refs.table {
+		keys = append(keys, k)
+	}
+	sort.Slice(keys, func(i, j int) bool { return keys[i] < keys[j] })
+	var programs, accepts, rejects, interior, fails atomic.Int64
+	proto := makeTestProto(func(p *config.ConsensusParams) { p.LogicSigMaxCost = 100_000; p.MaxAppProgramCost = 100_000 })
+	r.ParallelFor(versions, func(vi int) {
+		v := uint64(vi)
+		var targets []tgtInstr
+		for _, k := range keys {
+			s := refs.table.effective(k, v)
+			if s == nil {
+				continue
+			}
+			second := -1
+			if fi := c34FieldImm(s); fi >= 0 {
+				for x := 0; x < 256 && second < 0; x++ {
+					c := c34Case{s.Opcode, x, 'f'}
+					if !refs.expectTable(c, v, s.Modes == ModeApp).reject {
+						second = x
+					}
+				}
+				if second < 0 {
+					continue
+				}
+			}
+			b := c34InstrBytes(s, second)
+			if len(b) < 2 {
+				continue
+			}
+			if s.Size != 0 && s.Size != len(b) {
+				t.Errorf("harness: %s encodes to %d bytes but OpSpec.Size is %d", s.Name, len(b), s.Size)
+				continue
+			}
+			targets = append(targets, tgtInstr{s.Name, b, s.Modes == ModeApp})
+		}
+		classes := map[string]struct{}{}
+		for _, T := range targets {
+			if T.app && v < 2 {
+				continue
+			}
+			for _, B := range c34Branchers {
+				lv := max(v, 1)
+				if B.intro > lv {
+					continue
+				}
+				for _, backward := range []bool{false, true} {
+					bsize := 3
+					if B.table {
+						bsize = 4
+					} else if v >= varintBranchVersion {
+						bsize = 2
+					}
+					// layout
+					var bpc, tpc int
+					var bounds map[int]bool
+					var total int
+					if !backward {
+						bpc = 5
+						tpc = bpc + bsize
+						total = tpc + len(T.bytes) + 1
+						bounds = map[int]bool{1: true, 4: true, bpc: true, tpc: true, tpc + len(T.bytes): true}
+					} else {
+						tpc = 4
+						bpc = tpc + len(T.bytes) + 1
+						total = bpc + bsize + 1
+						bounds = map[int]bool{1: true, tpc: true, tpc + len(T.bytes): true, bpc: true, bpc + bsize: true}
+					}
+					lo, hi := tpc-1, total+1
+					if backward {
+						lo, hi = 0, bpc
+					}
+					for tgt := lo; tgt <= hi; tgt++ {
+						enc := c34EncodeBranch(v, B, bpc, tgt)
+						if enc == nil {
+							continue
+						}
+						prog := []byte{byte(v), 0x20, 0x01, 0x01}
+						if !backward {
+							prog = append(prog, 0x22)
+							prog = append(prog, enc...)
+							prog = append(prog, T.bytes...)
+							prog = append(prog, 0x22)
+						} else {
+							prog = append(prog, T.bytes...)
+							prog = append(prog, 0x22)
+							prog = append(prog, enc...)
+							prog = append(prog, 0x22)
+						}
+						if len(prog) != total {
+							t.Errorf("harness: layout size mismatch")
+							return
+						}
+						want := bounds[tgt] || (tgt == total && v >= 2)
+						if tgt < bpc+bsize && !B.table && v < backBranchEnabledVersion {
+							want = false
+						}
+						if tgt < bpc+bsize && tgt >= bpc && tgt != bpc {
+							want = false // own interior
+						}
+						var checkErr error
+						if T.app {
+							first := makeSampleTxn()
+							first.Txn.Type = protocol.ApplicationCallTx
+							ep := NewAppEvalParams(transactions.WrapSignedTxnsWithAD([]transactions.SignedTxn{first}), proto, &transactions.SpecialAddresses{})
+							checkErr = CheckContract(prog, 0, ep)
+						} else {
+							var txn transactions.SignedTxn
+							txn.Txn.Type = protocol.PaymentTx
+							txn.Lsig.Logic = prog
+							ep := NewSigEvalParams([]transactions.SignedTxn{txn}, proto, &NoHeaderLedger{})
+							checkErr = CheckSignature(0, ep)
+						}
+						programs.Add(1)
+						isInterior := tgt > tpc && tgt < tpc+len(T.bytes)
+						if isInterior {
+							interior.Add(1)
+						}
+						if (checkErr == nil) != want {
+							if fails.Add(1) <= 4 {
+								key := "C34:branch:accepted-target-inside-instruction"
+								if want {
+									key = "C34:branch:rejected-legal-target"
+								}
+								r.Report(key, fmt.Sprintf("v%d %s -> byte %d with %s at pc %d..%d (program %x): reference accept=%v but Check says %v",
+									v, B.name, tgt, T.name, tpc, tpc+len(T.bytes)-1, prog, want, checkErr),
+									map[string]any{"part": 3, "version": v, "brancher": B.name, "target_instruction": T.name, "target": tgt, "program": fmt.Sprintf("%x", prog)})
+							} else {
+								r.Report("C34:branch:accepted-target-inside-instruction", "more of the same", nil)
+							}
+							continue
+						}
+						if want {
+							accepts.Add(1)
+						} else {
+							rejects.Add(1)
+						}
+						cls := "reject"
+						if want {
+							cls = "accept"
+						}
+						if isInterior {
+							cls += "/interior"
+						}
+						classes[T.name+"|"+cls] = struct{}{}
+					}
+				}
+			}
+		}
+		for k := range classes {
+			r.Class("part3|" + k)
+		}
+	})
+	r.EvalN(int(programs.Load()))
+	r.Set("part3_programs", programs.Load())
+	r.Set("part3_check_accepts", accepts.Load())
+	r.Set("part3_check_rejects", rejects.Load())
+	r.Set("part3_targets_inside_an_instruction", interior.Load())
+	r.Sample(map[string]any{"part": 3, "example": "v3: pushint-free form `intcblock 1 1; intc_0; bnz +1; load 0x43; intc_0` -> Check must reject (target is the immediate of load)"})
+}
+
 func TestVerif_C34(t *testing.T) {
 	r := ve.NewRun("C34", "exploration")
 	lang, langMax, err := c34LoadLang()
@@ -1247,13 +1498,17 @@ func TestVerif_C34(t *testing.T) {
 	c34Part1(t, r, refs)
 	r.Note("part 1 took %.1fs (evaluations so far %d)", time.Since(t0).Seconds(), r.Evals())
 	t0 = time.Now()
+	c34Part3(t, r, refs)
+	r.Note("part 3 took %.1fs", time.Since(t0).Seconds())
+	t0 = time.Now()
 	c34Part2(t, r)
 	r.Note("part 2 took %.1fs", time.Since(t0).Seconds())
 
 	nv := r.Finish(ve.Coverage{
 		Rule: "part 1: every opcode byte x every sub-opcode/field-immediate value 0..255 x versions 0..LogicVersion+1 x {sig, app}; " +
 			"part 2: all programs of <= 4 instructions over an 11-instruction branch alphabet, every label slot x every target byte offset -2..len+2 " +
-			"(all versions; quick tier runs the 4-instruction shapes on versions 4,8,13), 2-slot programs of <= 3 instructions full product",
+			"(all versions; quick tier runs the 4-instruction shapes on versions 4,8,13), 2-slot programs of <= 3 instructions full product; " +
+			"part 3: every multi-byte instruction of every version x 6 branchers x forward/backward x every target byte",
 		Exhaustive: true,
 	})
 	if nv > 0 {
